@@ -120,6 +120,7 @@ pub fn bounds(args: &[String]) {
                 json!({"m": m, "b": b, "a": 20, "items": [base, base + 1], "pairs": 50}));
         }
     }
+    crate::util::wd_pause();
     println!("{}", json!({"tried": tried, "found": found, "max_excess": max_excess}));
 }
 
@@ -208,6 +209,20 @@ pub fn card(args: &[String]) {
             add("card-decrease-merge", format!("the cardinality estimate went from {} to {} by a merge (m={}, b={})", before, after, m, b), json!({"m": m, "b": b, "base": base}));
         }
     }
+    crate::util::wd_pause();
+    for (m, n) in [(4096u64, 300_000u64), (1024, 100_000)] {
+        crate::util::tick_idx(0, json!({"m": m, "n": n}));
+        let params = SetSketchParams::new(1.001, m, 20., 65534);
+        let mut s = SetSketcher::<u16, u64, FnvHasher>::new(params, BuildHasherDefault::<FnvHasher>::default());
+        let base = rng.next_u64() >> 8;
+        for i in 0..n { s.sketch(&(base + i)).unwrap(); }
+        let (c, rsd) = s.get_cardinal_stats();
+        tried += 1;
+        if !((c - n as f64).abs() <= 6.0 * rsd * n as f64) {
+            add("card-accuracy", format!("SetSketch estimate {} for {} distinct items (m={}, b=1.001): off by {:.1} advertised standard deviations", c, n, m, (c - n as f64) / (rsd * n as f64)),
+                json!({"m": m, "b": 1.001, "a": 20, "q": 65534, "items": format!("{}..{}", base, base + n)}));
+        }
+    }
     println!("{}", json!({"tried": tried, "found": found, "observations": obs}));
 }
 
@@ -239,5 +254,6 @@ pub fn card_mc(args: &[String]) {
             }
         }
     }
+    crate::util::wd_pause();
     println!("{}", json!({"found": found}));
 }
